@@ -236,6 +236,77 @@ def conflicts_part(ctx, exe, mexe):
                                      "rendered by the mirror must occur in order in format_conflicts' output" % len(srcs))
 
 
+def errpp_part(ctx, exe, mexe):
+    """LexParseError::pp for errors that COVER text: lrlex's own lexing errors are zero-length, a hand-written lexer
+    (public LRNonStreamingLexer::new + LRLexError::new) may report an error over a span (a, b), b > a (an
+    unterminated comment running to the end of the input).  For every text and every boundary span a <= b the
+    harness builds such a lexer with ONE lexing error of span (a, b) (PE: pp of LexParseError::LexError; PR: the
+    same error handed back by RTParserBuilder::parse_map) resp. ONE unexpected lexeme of span (a, b) (PQ: pp of the
+    resulting LexParseError::ParseError, no recovery); the extracted model prints the message with
+    byte_to_line_col of the span's START (C19_line_col_spec applied at a)."""
+    rng = ctx.rng
+    texts = [[97, 98, 32, 47, 42, 32, 120], [97, 10, 47, 42, 10, 98, 10, 99, 10],
+             [233, 252, 13, 10, 97, 98, 32, 47, 42, 32, 241, 13, 10, 246], []]
+    maxlen = ctx.n(5, 6)
+    for n in range(0, maxlen + 1):
+        for t in itertools.product(ALPHA, repeat=n):
+            texts.append(list(t))
+    for _ in range(ctx.n(600, 6000)):
+        n = rng.randint(6, 24)
+        texts.append([rng.choice(ALPHA + EXTRA + [10, 10]) for _ in range(n)])
+    lines = ["E " + " ".join(map(str, t)) for t in texts]
+    impl = core.run_lines([exe], lines)
+    model = core.run_lines([mexe], lines)
+    nbad = nq = nspan_nonempty = ncross = 0
+    for t, l, a, b in zip(texts, lines, impl, model):
+        tb = "".join(map(chr, t)).encode()
+        nontriv = (10 in t) and any(x > 127 or x == 13 for x in t)
+        ctx.case(l, nontriv, {"text": t, "impl_equals_model": a == b, "result": a[:160]})
+        ctx.count("errpp_len_%d" % min(len(t), 8))
+        fa, fb = a.split(" | "), b.split(" | ")
+        nq += len(fb) - 1
+        for x in fb[1:]:
+            f = x.split()
+            if f[0] == "PE" and int(f[2]) > int(f[1]):
+                nspan_nonempty += 1
+                if b"\n" in tb[int(f[1]):int(f[2])]:
+                    ncross += 1
+        if a == b:
+            continue
+        nbad += 1
+        if nbad > 40:
+            continue
+        if len(fa) != len(fb) or any(x.split()[:3] != y.split()[:3] for x, y in zip(fa[1:], fb[1:])):
+            ctx.violation({"text": t, "impl": a[:400], "model": b[:400], "note": "result shapes differ",
+                           "replay_cmd": "echo '%s' | .work/target/release/c19" % l}, no_input=True)
+            continue
+        d = []
+        for x, y in zip(fa, fb):
+            if x != y:
+                fx, fy = x.split(), y.split()
+                d.append({"error": {"PE": "lexing error (LRLexError) with span", "PR": "lexing error with span, handed back by parse_map",
+                                    "PQ": "parse error at a lexeme with span"}.get(fx[0], fx[0]),
+                          "span": [int(fx[1]), int(fx[2])] if len(fx) > 2 else None,
+                          "covered_text": tb[int(fx[1]):int(fx[2])].decode(errors="replace") if len(fx) > 2 else None,
+                          "pp_prints": dec(fx[-1]), "expected(position of the span start)": dec(fy[-1])})
+        ctx.violation({"text": t, "text_str": "".join(map(chr, t)), "differences": d[:5], "n_differences": len(d),
+                       "how": "LRNonStreamingLexer::new(text, vec![Err(LRLexError::new(Span::new(a, b)))] resp. "
+                              "vec![Ok(DefaultLexeme::new('B', a, b - a))] for the grammar S: 'A' 'B';, NewlineCache of text); "
+                              "LexParseError::pp(&lexer, ..)",
+                       "authority": "C19_line_col_spec at the start offset of the error's span (line = 1 + newlines before it, "
+                                    "column = 1 + characters since the line began)",
+                       "replay_cmd": "echo '%s' | .work/target/release/c19" % l})
+    ctx.oblige(nbad == 0, "error pretty-printing of errors covering text")
+    ctx.coverage["errpp_queries"] = nq
+    ctx.coverage["errpp_texts_differing"] = nbad
+    ctx.coverage["errpp_lexing_errors_with_nonempty_span"] = nspan_nonempty
+    ctx.coverage["errpp_lexing_errors_with_span_crossing_a_newline"] = ncross
+    ctx.coverage["errpp_rule"] = ("every text over {a,é,♠,\\n,\\r} up to length %d plus %d random longer texts (incl. 4-byte chars) x "
+                                  "every boundary span a <= b: pp of a lexing error of that span (direct and through parse_map) and of a "
+                                  "parse error at a lexeme of that span (no recovery), lexer built with LRNonStreamingLexer::new; compared "
+                                  "with the message the extracted model prints for the span's start" % (maxlen, ctx.n(600, 6000)))
+
+
 def run(ctx):
     ctx.gate = core.proof_gate("C19")
     for _ in ctx.gate["theorems"]:
@@ -326,6 +397,7 @@ def run(ctx):
     ctx.oblige(ndiff == 0, "correspondence")
     diag_part(ctx, exe, mexe)
     conflicts_part(ctx, exe, mexe)
+    errpp_part(ctx, exe, mexe)
     ctx.coverage["rule"] = ("all texts over {a,é,♠,\\n,\\r} up to length %d with the whole-text feed and %d random chunking(s), "
                             "plus random longer texts incl. 4-byte chars; every byte offset (line), every char boundary "
                             "(line,col), every boundary span; non-trivial = text has a newline and a multi-byte char or CR; "
